@@ -655,7 +655,7 @@ def euler_to_u(phi1, PHI, phi2):
 def _arctan2(y, x):
     """Modified arctan function used locally in u_to_euler().
     """
-    tol = 1e-8
+    tol = 1e-8 * max(n.abs(x), n.abs(y))
     if n.abs(x)<tol: x = 0
     if n.abs(y)<tol: y = 0
 
@@ -694,11 +694,14 @@ def u_to_euler(U_matrix):
     if CHECKS.activated: checks._check_rotation_matrix(U)
 
     tol = 1e-8
-    PHI = n.arccos(U[2, 2])
-    if n.abs(PHI)<tol:
+    # sin(PHI) is taken from the third column: arccos(U[2, 2]) alone cannot
+    # resolve PHI closer than 1e-8 to 0 or pi
+    sinPHI = n.sqrt(U[0, 2]**2 + U[1, 2]**2)
+    PHI = n.arctan2(sinPHI, U[2, 2])
+    if sinPHI<tol and U[2, 2]>0:
         phi1 = _arctan2(-U[0, 1], U[0, 0])
         phi2 = 0
-    elif n.abs(PHI-n.pi)<tol:
+    elif sinPHI<tol:
         phi1 = _arctan2(U[0, 1], U[0, 0])
         phi2 = 0
     else:
